@@ -212,10 +212,11 @@ func execOp(re *regexp2.Regexp, op *Op, keep *[]kept) (out string) {
 		m1, e1 := re.FindStringMatch(in)
 		m2, e2 := re.FindRunesMatch([]rune(in2))
 		var sb strings.Builder
+		// the first error of either chain ends the walk, so that an aborted walk is a prefix of the full one
 		for k := 0; k < maxWalk && (m1 != nil || m2 != nil || e1 != nil || e2 != nil); k++ {
 			if e1 != nil {
-				sb.WriteString("1:" + errClass(e1) + "|")
-				e1, m1 = nil, nil
+				sb.WriteString(errClass(e1))
+				break
 			} else if m1 != nil {
 				sb.WriteString("1:")
 				canonOne(&sb, m1)
@@ -223,8 +224,8 @@ func execOp(re *regexp2.Regexp, op *Op, keep *[]kept) (out string) {
 				m1, e1 = re.FindNextMatch(m1)
 			}
 			if e2 != nil {
-				sb.WriteString("2:" + errClass(e2) + "|")
-				e2, m2 = nil, nil
+				sb.WriteString(errClass(e2))
+				break
 			} else if m2 != nil {
 				sb.WriteString("2:")
 				canonOne(&sb, m2)
